@@ -33,6 +33,10 @@ func ProgramGen(async bool) *rapid.Generator[prog.Program] {
 			keys = keys[:8]
 		}
 		p.Keys = keys
+		// cold keys: each is written by exactly one put of the whole program, so every memstore / table / log file that
+		// received one holds something no other file shadows - losing or misplacing a whole table shows up even when the
+		// hot keys are rewritten all the time
+		cold := 0
 		ns := rapid.IntRange(1, 2).Draw(t, "sessions")
 		for s := 0; s < ns; s++ {
 			free := rapid.IntRange(0, 3).Draw(t, "free") == 0
@@ -54,6 +58,11 @@ func ProgramGen(async bool) *rapid.Generator[prog.Program] {
 				case k < 7:
 					st.Op = "put"
 					st.VLen = rapid.SampledFrom([]int{4, 20, 60, 150}).Draw(t, "vlen")
+					if cold < 12 && rapid.IntRange(0, 3).Draw(t, "cold") == 0 {
+						p.Keys = append(p.Keys, []byte{0xc0, 'c', byte(cold)})
+						st.Key = len(p.Keys) - 1
+						cold++
+					}
 				case k < 10:
 					st.Op = "delete"
 				case k == 10 && !free:
